@@ -60,7 +60,7 @@ def fold_accumulators(fx, res):
     for fid, it in res.interps.items():
         body = it.body
         for b, t in body.calls():
-            if strip_generics(t["callee"].get("path") or "") != "core::iter::traits::iterator::Iterator::fold" or len(t["args"]) != 3:
+            if strip_generics(t["callee"].get("path") or "") not in ("core::iter::traits::iterator::Iterator::fold", "core::iter::traits::iterator::Iterator::try_fold") or len(t["args"]) != 3:
                 continue
             st = it.out_states.get(b)
             if st is None:
@@ -159,6 +159,18 @@ def sum64_fold(fx, fid, ob, fold_acc):
             src = op_place(rets[0]["rv"]["a"])
             if src is not None and src["l"] == adds[0]["place"]["l"]:
                 return "fold accumulator: starts below 2^32 and gains one 32-bit value per element of %s: below 2^64" % recv_ty.split("::")[-1][:40]
+        # try_fold: the closure's successful result is Ok(sum) (its other results leave the fold)
+        ok_rets = [s_ for s_ in rets if s_["rv"]["k"] == "agg" and s_["rv"].get("variant") in ("Ok", "Some", "Continue") and s_["rv"].get("ops")]
+        if len(adds) == 1 and len(ok_rets) == 1:
+            src = op_place(ok_rets[0]["rv"]["ops"][0])
+            for _ in range(3):
+                sd = body.single_def(src["l"]) if src is not None and not src["p"] else None
+                if sd is not None and sd[2] == "assign" and sd[3]["k"] == "use" and op_place(sd[3]["a"]) is not None:
+                    src = op_place(sd[3]["a"])
+                else:
+                    break
+            if src is not None and src["l"] == adds[0]["place"]["l"]:
+                return "try_fold accumulator: starts below 2^32 and gains one 32-bit value per element of %s: below 2^64" % recv_ty.split("::")[-1][:40]
     return None
 
 
